@@ -3,6 +3,8 @@ package main
 import (
 	"fmt"
 	"go/token"
+	"sort"
+	"strings"
 
 	"golang.org/x/tools/go/ssa"
 )
@@ -11,7 +13,7 @@ func init() {
 	register(&propDef{
 		ID:  "C13",
 		Run: runC13,
-		Explanation: "Static analysis of coinomics minting: (R1) only Keeper.MintCoins mints for the coinomics account, only MintAndAllocate calls it, only EndBlocker calls MintAndAllocate; (R2) EndBlocker reaches MintAndAllocate only while EnableCoinomics is set; on the first block after activation (previous timestamp zero) nothing is minted and the timestamp is recorded; every path that mints sends exactly the minted coin from the coinomics account to the fee collector and records the block timestamp; the amount depends on bonded tokens, reward coefficient, block time, previous timestamp, supply and maximum supply; minting is switched off only on the cap branch, where the amount is replaced by a value derived from max supply and supply; the keeper is wired with the fee-collector name. The formula, rounding, leap-year length and cap arithmetic are numeric and not decided.",
+		Explanation: "Static analysis of coinomics minting: (R1) only Keeper.MintCoins mints for the coinomics account, only MintAndAllocate calls it, only EndBlocker calls MintAndAllocate; (R2) EndBlocker reaches MintAndAllocate only while EnableCoinomics is set; on the first block after activation (previous timestamp zero) nothing is minted and the timestamp is recorded; every path that mints sends exactly the minted coin from the coinomics account to the fee collector and records the block timestamp; the amount depends on bonded tokens, reward coefficient, block time, previous timestamp, supply and maximum supply; minting is switched off only on the cap branch, where the amount is replaced by a value derived from max supply and supply; the keeper is wired with the fee-collector name; the block-mint amount is rounded in one way only; the block time enters the computation only as a timestamp or through Year(), and a hand-written leap predicate takes Year() modulo exactly {4,100,400}; (R3) while disabled EndBlocker forgets the last timestamp. The formula itself, the value of the rounding, the two year-length constants and the cap arithmetic are numeric and not decided.",
 		Assumptions: []string{"sdk.Dec arithmetic", "bank keeper mints/moves exactly the given coins"},
 		Declined:    []string{"the formula bonded × coefficient% × elapsed / year in 18-decimal fixed point, rounding to nearest", "leap-year year length", "never exceeding the cap as a numeric bound"},
 	})
@@ -216,6 +218,46 @@ func runC13(r *Run) {
 		}
 	})
 	r.Check(badConv == "", "R2", fnID(fn)+"#single-rounding", where, "the block mint is only ever rounded with RoundInt", "the block-mint amount is converted with "+badConv+" somewhere in MintAndAllocate while the minted coin uses RoundInt: the cap comparison and the minted amount can disagree by one unit (supply can end above the maximum)")
+	// year length: the statement fixes it as a function of the calendar year (leap or not). Whatever the
+	// arithmetic, the block time may then enter the computation only as a timestamp (Unix*) or through Year();
+	// any other calendar query on it (AddDate, Month, YearDay, Sub, ...) makes the divisor vary inside one year.
+	nYear, badUse := 0, ""
+	eachCall(fn, func(ci CallInfo) {
+		c := ci.Instr.Common()
+		for i, a := range c.Args {
+			if namedName(a.Type()) != "Time" || !fromBlockTime(a, map[ssa.Value]bool{}) {
+				continue
+			}
+			isRecv := i == 0 && !ci.Invoke && ci.Static != nil && ci.Static.Signature.Recv() != nil
+			switch {
+			case isRecv && ci.Name == "Year":
+				if refs := ci.Instr.(ssa.Value).Referrers(); refs != nil && len(*refs) > 0 {
+					nYear++
+				}
+			case isRecv && (ci.Name == "Unix" || ci.Name == "UnixMilli" || ci.Name == "UnixMicro" || ci.Name == "UnixNano" || ci.Name == "UTC" || ci.Name == "Local" || ci.Name == "In"):
+			default:
+				badUse = ci.Name + " at " + P.Pos(instrPos(ci.Instr))
+			}
+		}
+	})
+	r.Check(badUse == "" && nYear >= 1, "R2", fnID(fn)+"#year-length-from-calendar-year", where, "the block time is used only as a timestamp and through Year()",
+		fmt.Sprintf("the block time enters MintAndAllocate through %q (Year() uses: %d): the year length no longer is a function of the calendar year alone (365 or 366 days, 'following leap years'), so the per-block amount changes inside a year", badUse, nYear))
+	// when the leap-year predicate is written out by hand, the remainders taken of Year() are the Gregorian ones
+	var rems []string
+	eachInstr(fn, func(in ssa.Instruction) {
+		if b, ok := in.(*ssa.BinOp); ok && b.Op == token.REM {
+			if c, ok := stripValue(b.X).(*ssa.Call); ok && callInfo(c).Name == "Year" {
+				if n, ok := constInt(b.Y); ok {
+					rems = append(rems, fmt.Sprint(n))
+				}
+			}
+		}
+	})
+	if len(rems) > 0 {
+		sort.Strings(rems)
+		set := strings.Join(uniq(rems), ",")
+		r.Check(set == "100,4,400", "R2", fnID(fn)+"#gregorian-leap-divisors", where, "Year() %% {4,100,400}", "the hand-written leap-year predicate takes Year() modulo {"+set+"}, the Gregorian rule needs exactly {4,100,400}")
+	}
 	// wiring
 	if nh, ok := P.FnOK("app.NewHaqq"); ok {
 		fc, _ := P.constOf("github.com/cosmos/cosmos-sdk/x/auth/types", "FeeCollectorName")
@@ -252,6 +294,43 @@ func isFieldLoad(v ssa.Value, sn, f string) bool {
 		}
 	case *ssa.Field:
 		if s, ff, ok := fieldOfValue(x); ok && s == sn && ff == f {
+			return true
+		}
+	}
+	return false
+}
+
+// fromBlockTime: v derives from a BlockTime() call without passing through Year().
+func fromBlockTime(v ssa.Value, seen map[ssa.Value]bool) bool {
+	if v == nil || seen[v] {
+		return false
+	}
+	seen[v] = true
+	switch x := v.(type) {
+	case *ssa.Call:
+		n := callInfo(x).Name
+		if n == "BlockTime" {
+			return true
+		}
+		if n == "Year" {
+			return false
+		}
+	case *ssa.Alloc:
+		for _, ref := range *x.Referrers() {
+			if st, ok := ref.(*ssa.Store); ok && st.Addr == x && fromBlockTime(st.Val, seen) {
+				return true
+			}
+		}
+		return false
+	case *ssa.Const, *ssa.Global, *ssa.Parameter, *ssa.FreeVar, *ssa.Function, *ssa.Builtin:
+		return false
+	}
+	in, ok := v.(ssa.Instruction)
+	if !ok {
+		return false
+	}
+	for _, op := range in.Operands(nil) {
+		if op != nil && *op != nil && fromBlockTime(*op, seen) {
 			return true
 		}
 	}
